@@ -213,6 +213,7 @@ def stage_D(d: str, s: dict, crash=None) -> dict:
     my_matrix = sparse.load_npz(os.path.join(d, "rate_matrix.npz"))
     real_eigs = tr.eigs
     notes = {}
+    sigma = effective_sigma(s, my_matrix)
     for i, seed in enumerate(s["seeds"]):
         def seeded_eigs(A, *a, _seed=seed, **kw):
             if "rng" not in kw and kw.get("v0") is None:
@@ -223,7 +224,7 @@ def stage_D(d: str, s: dict, crash=None) -> dict:
             dt = tr.DecompositionTool(my_matrix)
             try:
                 ev, evec = dt.get_decomposition(tol=s["tol"], maxiter=s["maxiter"], which=s["which"],
-                                                sigma=s["sigma"], k=s["k"])
+                                                sigma=sigma, k=s["k"])
             except Exception as e:  # noqa: BLE001
                 if type(e).__name__ in ("ArpackNoConvergence", "ArpackError"):
                     notes[str(i)] = type(e).__name__
@@ -236,6 +237,14 @@ def stage_D(d: str, s: dict, crash=None) -> dict:
         np.save(os.path.join(d, f"eigenvalues_{i}.npy"), np.array(ev))
         np.save(os.path.join(d, f"eigenvectors_{i}.npy"), np.array(evec))
     return {"notes": notes}
+
+
+def effective_sigma(s: dict, matrix):
+    """The user of the decomposition rule picks the shift either as an absolute number or knowing the scale of the
+    rates (a fraction of the largest exit rate)."""
+    if s.get("sigma_rel") is not None:
+        return float(s["sigma_rel"] * np.abs(matrix.diagonal()).max())
+    return s["sigma"]
 
 
 STAGES = {"W": stage_W, "E": stage_E, "S": stage_S, "D": stage_D}
@@ -420,13 +429,16 @@ class PipelineCheck(Check):
         # solver
         sel, which = rng.choice(SOLVER_TOP + SOLVER_TOP + SOLVER_OTHER)
         sigma = None if sel is None else rng.choice([1e-3, 0.1, 1.0, 10 ** rng.uniform(-3, 1)])
+        sigma_rel = None
+        if sel is not None and rng.random() < 0.6:
+            sigma_rel = rng.choice([1e-3, 1e-2, 0.1, 1.0])
         k = rng.choice([2, 3, 6, 8, 12])
         k = min(k, n - 2)  # scipy's sparse solver needs k < n-1; for n<3 there is no valid k and D is not scheduled
         tol = rng.choice([1e-5, 1e-8, 1e-10, 1e-12])
         # the shipped default is maxiter=100000; a non-converging ARPACK run (counted, not judged) then costs minutes,
         # so the large value is only drawn where convergence is quick
         maxiter = 100000 if (tol >= 1e-8 and sel is not None and rng.random() < 0.3) else rng.choice([3000, 6000])
-        solver = {"tol": tol, "maxiter": maxiter, "which": which, "sigma": sigma,
+        solver = {"tol": tol, "maxiter": maxiter, "which": which, "sigma": sigma, "sigma_rel": sigma_rel,
                   "k": k, "seeds": [rng.randrange(2 ** 32) for _ in range(rng.choice([1, 2, 3]))]}
         # faults enabled for this run (swarm); ~15% fault free
         enabled = set()
@@ -666,8 +678,14 @@ class PipelineCheck(Check):
         if np.max(np.abs(dense.imag)) > 1e-8 * lam_max:
             raise Violation("dense-spectrum-complex", "dense spectrum of the rate matrix is not real")
         dense = np.sort(dense.real)[::-1]
-        tol_ev = (1e3 * s["tol"] + 1e-9) * lam_max
-        top = (s["sigma"] is None and s["which"] == "LR") or (s["sigma"] is not None and s["which"] in ("LM", "SR"))
+        sig_used = effective_sigma(s, Q)
+        # accuracy ARPACK can deliver: relative tol on the operator's eigenvalues; in shift-invert mode
+        # nu = 1/(lambda - sigma), so d(lambda) ~ tol * |lambda - sigma|: the scale is max(|l|max, |sigma|)
+        eff = max(lam_max, abs(sig_used) if sig_used is not None else 0.0)
+        tol_ev = (1e3 * s["tol"] + 1e-9) * eff
+        if eff > 50 * lam_max:
+            probes["shift_far_from_spectrum_loose_oracle"] = 1
+        top = (sig_used is None and s["which"] == "LR") or (sig_used is not None and s["which"] in ("LM", "SR"))
         pi = V * np.exp(-(E - E.min()) / (R_KJ * T))
         for si in range(len(s["seeds"])):
             pe = os.path.join(d, f"eigenvalues_{si}.npy")
@@ -675,7 +693,7 @@ class PipelineCheck(Check):
                 continue  # ARPACK did not converge for this start vector (counted)
             ev = np.load(pe)
             evec = np.load(os.path.join(d, f"eigenvectors_{si}.npy"))
-            tag = f"start vector #{si} (entropy {s['seeds'][si]}), which={s['which']}, sigma={s['sigma']}, tol={s['tol']}"
+            tag = f"start vector #{si} (entropy {s['seeds'][si]}), which={s['which']}, sigma={sig_used}, tol={s['tol']}"
             if np.iscomplexobj(ev) or np.iscomplexobj(evec):
                 raise Violation("eig-real", f"{tag}: complex output")
             if np.any(np.diff(ev) > 0):
@@ -692,7 +710,7 @@ class PipelineCheck(Check):
                 continue
             if abs(ev[0]) > tol_ev:
                 key = None
-                if (s["sigma"] is None and abs(dense[0]) <= tol_ev and len(dense) > len(ev)
+                if (sig_used is None and abs(dense[0]) <= tol_ev and len(dense) > len(ev)
                         and np.all(np.abs(ev - dense[1:len(ev) + 1]) <= tol_ev)):
                     # finding F13: ARPACK's regular mode multiplies the start vector by the operator first, which
                     # annihilates the null vector of a rate matrix; the returned set is exactly eigenvalues #2..#k+1
@@ -705,18 +723,18 @@ class PipelineCheck(Check):
                 continue
             v = evec[:, 0]
             # residual of the returned pair
-            resid = np.max(np.abs(v @ Qd - ev[0] * v)) / (lam_max * np.max(np.abs(v)))
+            resid = np.max(np.abs(v @ Qd - ev[0] * v)) / (eff * np.max(np.abs(v)))
             if resid > 1e3 * s["tol"] + 1e-8:
                 raise Violation("eig-residual", f"{tag}: first column is not a left eigenvector (relative residual "
                                                 f"{resid:.3g})")
             gap = dense[0] - dense[1]
-            if gap < 1e4 * s["tol"] * lam_max:
+            if gap < 1e4 * s["tol"] * eff:
                 probes["eigenvector_clause_skipped_small_gap"] = probes.get("eigenvector_clause_skipped_small_gap", 0) + 1
                 continue
             a = v / v[np.argmax(np.abs(v))]
             b = pi / pi.max()
             err = float(np.max(np.abs(a - b)))
-            bound = 100 * s["tol"] * lam_max / gap + 1e-7
+            bound = 100 * s["tol"] * eff / gap + 1e-7
             if err > bound:
                 w = int(np.argmax(np.abs(a - b)))
                 raise Violation("stationary-vector", f"{tag}: left eigenvector of eigenvalue 0 is not proportional to "
